@@ -135,10 +135,10 @@ class SchedCheck(Check):
     functions = ["ScheduledProgram::from_program", "ScheduledBasicBlock::build", "DependencyQueue::{new,record_access_and_get_dependencies,into_pending_dependencies}",
                  "<MemoryAccessType as Access>::*", "<InstructionFrameInteraction as Access>::*", "<ControlFlowGraph as From<&Program>>::from",
                  "<DefaultHandler as InstructionHandler>::{memory_accesses,matching_frames,is_scheduled,role}"]
-    assumptions = ["one block of <= N instructions (plus an optional terminator) over a fixed set of three frames and two memory regions; instruction operands are solver variables",
+    assumptions = ["one block of <= N instructions (plus an optional terminator; C22 only: after the terminator of a one-instruction block, optionally a second block of one instruction, each block held to the same requirements) over a fixed set of three frames and two memory regions; instruction operands are solver variables",
                    "petgraph GraphMap modelled as node / edge lists with the interpreted Eq of ScheduledGraphNode; HashMap / HashSet as association lists",
                    "per-instruction memory accesses and matched frames are taken from the interpreted handler (their correctness is C26 / C27)"]
-    outside = ["blocks longer than the bound", "multi-block programs beyond one terminator", "custom InstructionHandlers"]
+    outside = ["blocks longer than the bound", "C22: programs of more than two blocks, second blocks longer than one instruction; C23, C24: multi-block programs beyond one terminator", "custom InstructionHandlers"]
     N = {"quick": 2, "thorough": 3}
     sample_rate = 16
     wall_cap = {"quick": 900, "thorough": 7200}
@@ -163,14 +163,18 @@ class SchedCheck(Check):
         pool = [t.name for t in self.tpls] if n <= N else list(focus)
         names = [m.choose([(x, None) for x in pool]) for _ in range(n)]
         term = m.choose([(t, None) for t in ["none"] + [t.name for t in TERMS]]) if n <= N else "none"
-        m.ctx = {"names": names, "term": term}
+        # a second block: one instruction after the terminator of a one-instruction block (nothing of the first block may reach into it)
+        tail = [x for x in [m.choose([(x, None) for x in [None] + pool])] if x] if term != "none" and n == 1 and self.prop == "C22" else []
+        kinds = names + ([term] if term != "none" else []) + tail
+        groups = [list(range(len(kinds) - len(tail)))] + ([[len(kinds) - 1]] if tail else [])
+        m.ctx = {"names": names, "term": term, "tail": tail}
         prog = m.call_path("Program::new", [])
         cell = [prog]
         for t in self.prelude:
             m.call_path("Program::add_instruction", [Ref(cell, 0), from_tree(td, t, "Instruction")])
         by = {t.name: t for t in self.tpls + TERMS}
         body = []
-        for i, nm in enumerate(names + ([term] if term != "none" else [])):
+        for i, nm in enumerate(kinds):
             ins, hv = instantiate(m, by[nm], f"i{i}_")
             body.append(ins)
             m.call_path("Program::add_instruction", [Ref(cell, 0), deep_clone(ins)])
@@ -182,10 +186,12 @@ class SchedCheck(Check):
             m.world.count("schedule_errors")
             return None
         blocks = r.fields[0].fields[0].items
-        if len(blocks) != 1: raise Unsupported(f"{len(blocks)} blocks")
-        sb = blocks[0]
-        g = sb.fields[td.structs["ScheduledBasicBlock"].index("graph")]
-        edges = [(to_tree(m, e[0]), to_tree(m, e[1]), to_tree(m, e[2])[1]) for e in g.edges]
+        if len(blocks) != len(groups): raise Unsupported(f"{len(blocks)} blocks, expected {len(groups)}")
+        edges_b = []
+        for sb in blocks:
+            sb = sb[1] if isinstance(sb, tuple) else sb
+            g = sb.fields[td.structs["ScheduledBasicBlock"].index("graph")]
+            edges_b.append([(to_tree(m, e[0]), to_tree(m, e[1]), to_tree(m, e[2])[1]) for e in g.edges])
         # per-instruction facts from the interpreted handler
         sm = m.call_path("<ExternSignatureMap as Default>::default", []) if False else Agg("ExternSignatureMap", None, [MapObj("index")])
         info = []
@@ -205,14 +211,15 @@ class SchedCheck(Check):
                 blocked = frozenset(key(x[0]) for x in mf.fields[0].fields[mn.index("blocked")].items)
             role = m.call_path("<DefaultHandler as InstructionHandler>::role", [handler, ic]); m.force_tag(role)
             sched = m.branch_bool(m.call_path("<DefaultHandler as InstructionHandler>::is_scheduled", [handler, ic]))
-            info.append({"kind": (names + [term])[i], "terminator": i >= n, "role": td.enums["InstructionRole"][role.tag], "scheduled": sched,
+            info.append({"kind": kinds[i], "terminator": i == n and term != "none", "role": td.enums["InstructionRole"][role.tag], "scheduled": sched,
                          "frames_matched": bool(used | blocked), "used": used, "blocked": blocked, **sets})
-        oracle(self.prop, lambda k, d, g_: m.require(k, d, g_), info, edges)
+        for grp, edges in zip(groups, edges_b):
+            oracle(self.prop, lambda k, d, g_: m.require(k, d, g_), [info[i] for i in grp], edges)
         if m.want_sample() and m._check() == z3.sat:
             zm = m.solver.model()
             mdl = m.model_dict(zm); mdl["_ctx"] = m.ctx
             c = self.case("sample", "", mdl)
-            c["edges"] = sorted(json.dumps(json_tree([e[0], e[1], sorted(json.dumps(json_tree(d)) for d in e[2])])) for e in edges)
+            c["edges"] = [sorted(json.dumps(json_tree([e[0], e[1], sorted(json.dumps(json_tree(d)) for d in e[2])])) for e in edges) for edges in edges_b]
             return c
         return None
 
@@ -228,16 +235,16 @@ class SchedCheck(Check):
         ctx = model["_ctx"]
         by = {t.name: t for t in self.tpls + TERMS}
         lines = []
-        for i, nm in enumerate(ctx["names"] + ([ctx["term"]] if ctx["term"] != "none" else [])):
+        for i, nm in enumerate(ctx["names"] + ([ctx["term"]] if ctx["term"] != "none" else []) + ctx.get("tail", [])):
             lines.append(by[nm].render(hole_values(by[nm], f"i{i}_{nm}_", model)) if False else by[nm].render(hole_values(by[nm], f"i{i}_", model)))
-        return {"program": FRAMES + "\n" + "\n".join(lines), "body": lines, "kind": kind, "detail": detail, "names": ctx["names"], "term": ctx["term"]}
+        return {"program": FRAMES + "\n" + "\n".join(lines), "body": lines, "kind": kind, "detail": detail, "names": ctx["names"], "term": ctx["term"], "tail": ctx.get("tail", [])}
 
     def native(self, runner, case):
         r = runner.call({"op": "schedule_graph", "program": case["program"]})
         if "blocks" not in r: return None, r
-        if len(r["blocks"]) != 1: return None, {"input_error": "not one block"}
-        b = r["blocks"][0]
-        edges = [(parse_debug(e[0]), parse_debug(e[1]), [parse_debug(d) for d in e[2]]) for e in b["edges"]]
+        tail = case.get("tail", [])
+        if len(r["blocks"]) != (2 if tail else 1): return None, {"input_error": "unexpected number of blocks"}
+        edges = [[(parse_debug(e[0]), parse_debug(e[1]), [parse_debug(d) for d in e[2]]) for e in b["edges"]] for b in r["blocks"]]
         ma = runner.call({"op": "memory_accesses", "program": FRAMES, "instructions": case["body"]})["results"]
         mf = runner.call({"op": "matching_frames", "program": case["program"], "instructions": case["body"]})["results"]
         ro = runner.call({"op": "roles", "instructions": case["body"]})["results"]
@@ -246,10 +253,12 @@ class SchedCheck(Check):
         for i in range(len(case["body"])):
             used = frozenset(json.dumps(json_tree(parse_debug(x))) for x in mf[i].get("used", []))
             blocked = frozenset(json.dumps(json_tree(parse_debug(x))) for x in mf[i].get("blocked", []))
-            info.append({"kind": (case["names"] + [case["term"]])[i], "terminator": i >= n, "role": ro[i]["role"], "scheduled": ro[i]["scheduled"],
+            info.append({"kind": (case["names"] + ([case["term"]] if case["term"] != "none" else []) + tail)[i], "terminator": i == n and case["term"] != "none", "role": ro[i]["role"], "scheduled": ro[i]["scheduled"],
                          "frames_matched": bool(used | blocked), "used": used, "blocked": blocked,
                          "reads": frozenset(ma[i]["reads"]), "writes": frozenset(ma[i]["writes"]), "captures": frozenset(ma[i]["captures"])})
-        return (info, edges), r
+        nb = len(case["body"])
+        groups = [list(range(nb - len(tail)))] + ([[nb - 1]] if tail else [])
+        return (info, edges, groups), r
 
     def confirm(self, runner, case):
         obs, raw = self.native(runner, case)
@@ -258,14 +267,15 @@ class SchedCheck(Check):
             if "err" in raw: return False, "", f"does not schedule natively: {raw}"
             return None, "input", str(raw)[:300]
         col = Collect()
-        oracle(self.prop, col, obs[0], obs[1])
+        for grp, edges in zip(obs[2], obs[1]):
+            oracle(self.prop, col, [obs[0][i] for i in grp], edges)
         if not col.failed: return False, "", "native run satisfies the oracle"
         kind, detail = col.failed[0]
-        return True, f"{kind}:{detail}", f"{kind} ({detail}) fails for block {case['body']}: edges={raw['blocks'][0]['edges']}"
+        return True, f"{kind}:{detail}", f"{kind} ({detail}) fails for block(s) {case['body']}: edges={[b['edges'] for b in raw['blocks']]}"
 
     def validate(self, runner, sample):
         obs, raw = self.native(runner, sample)
         if obs is None: return f"native failed: {raw}"
-        nat = sorted(json.dumps(json_tree([e[0], e[1], sorted(json.dumps(json_tree(d)) for d in e[2])])) for e in obs[1])
+        nat = [sorted(json.dumps(json_tree([e[0], e[1], sorted(json.dumps(json_tree(d)) for d in e[2])])) for e in edges) for edges in obs[1]]
         if nat != sample["edges"]: return f"edges differ for {sample['body']}: native {nat} mirsym {sample['edges']}"
         return None
